@@ -224,6 +224,32 @@ def run_case(case, rng):
                         case.check(np.allclose(ev, want, rtol=1e-12, atol=1e-12),
                                    "state_estimator_vec-stale-after-in-place-belief-update",
                                    lambda: f"b={b!r} a={a!r} o={o!r}: {np.asarray(ev).tolist()!r} want {want.tolist()!r}", **facts)
+    # ---- beliefs at the very edge of the simplex: a non-absorbing component too small to change a float sum ----------
+    ab_states = [s for s in S if s in sp.flag]
+    nab_states = [s for s in S if s not in sp.flag]
+    if ab_states and nab_states:
+        for tiny in (1e-17, 2.7e-17, 1e-300, 5e-324):
+            probs = [1.0 if s == ab_states[0] else (tiny if s == nab_states[0] else 0.0) for s in S]
+            ab = case.call("BeliefMDP.is_absorbing(edge)", bm.is_absorbing, Belief(tuple(S), tuple(probs)))
+            case.count("edge_beliefs_checked")
+            if ab is not case.FAIL:
+                case.check(not bool(ab), "beliefmdp-is_absorbing-true-with-mass-on-a-non-absorbing-state",
+                           f"mass {tiny!r} on {nab_states[0]!r}", **facts)
+    # ---- vertex beliefs written as int arrays, Python lists or boolean masks -------------------------------------------
+    for i_, s_ in enumerate(S[:3]):
+        onehot = [1 if j_ == i_ else 0 for j_ in range(len(S))]
+        for rep_name, bv in (("int-array", np.array(onehot)), ("list", onehot), ("bool-mask", np.array(onehot, dtype=bool))):
+            for ai, a in enumerate(A[:2]):
+                for o in emitted[:2]:
+                    post, po = B.posterior(sp, {s_: 1.0}, a, o)
+                    ev = case.call("state_estimator_vec(non-float belief)", pomdp.state_estimator_vec, bv, ai, OL.index(o),
+                                   facts=dict(facts, belief_type=rep_name))
+                    case.count("nonfloat_belief_updates_checked")
+                    if ev is not case.FAIL:
+                        want = np.array([post.get(x, 0.0) for x in S])
+                        case.check(np.allclose(np.asarray(ev, dtype=float), want, rtol=1e-12, atol=1e-12),
+                                   "state_estimator_vec-wrong-for-non-float-belief-vector",
+                                   lambda: f"{rep_name} vertex {s_!r} a={a!r} o={o!r}: {np.asarray(ev).tolist()!r} want {want.tolist()!r}", **facts)
     b0 = case.call("BeliefMDP.initial_state_dist", lambda: list(bm.initial_state_dist().items()))
     if b0 is not case.FAIL:
         want = [sum(p for s2, p in sp.init if s2 == s and p > 0) for s in S]
